@@ -47,7 +47,7 @@ def build(hd, inject=False):
                 pass
             if not bp.barcodes.get(alias):
                 for i, b in enumerate(bcs):
-                    bp.addBarcode(alias, barcode=b, index=i + 1)
+                    bp.addBarcode(alias, barcode=b, index=i)         # the first cell has index 0 (valid, falsy)
                 if hd:
                     bp.expand(hd, alias=alias)
     with contextlib.redirect_stdout(io.StringIO()):
@@ -59,10 +59,12 @@ class Gen:
     def __init__(self, rng, bp, ip):
         self.rng, self.bp, self.ip = rng, bp, ip
         self.indices = sorted(ip.barcodes[INDEX_ALIAS].keys())
+        self.lower = False
 
     def bases(self, n, pn=0.04):
         r = self.rng
-        return ''.join('N' if r.random() < pn else r.choice('ACGT') for _ in range(n))
+        s = ''.join('N' if r.random() < pn else r.choice('ACGT') for _ in range(n))
+        return s.lower() if self.lower else s          # soft-masked style reads (the barcode itself stays upper case)
 
     def quals(self, n):
         r = self.rng
@@ -175,7 +177,10 @@ class Gen:
         recs = []
         index = r.choice(self.indices)
         stale = self.stale_header(sc, tid, index) if r.random() < 0.25 else None
+        stale_on = r.choice([(1, 2), (1, 2), (1,), (2,)]) if stale else ()      # both mates, or only one of them
         desc['stale_header'] = 1 if stale else 0
+        self.lower = r.random() < 0.06
+        desc['lower'] = 1 if self.lower else 0
         for m in (1, 2)[:nm]:
             n = lens[m - 1]
             start = sc['ins'][m - 1]
@@ -191,9 +196,10 @@ class Gen:
                 off += hi - lo
             s = ''.join(s)
             hdr = '@NS500414:628:H7YVNBGXC:%d:%d:%d:%d %d:N:0:%s' % (1 + tid % 4, 11101, 1000 + tid % 30000, 1000 + tid // 7, m, index)
-            if stale is not None:
+            if stale is not None and m in stale_on:
                 hdr = stale
             recs.append((hdr, s, '+', self.quals(len(s))))
+        self.lower = False
         return recs, nm, desc
 
     def stale_header(self, sc, tid, index):
@@ -206,6 +212,8 @@ class Gen:
                 'ES': 'NNNN', 'eq': 'zzzz', 'IS': 'NNNNNNNNNNNNNNNN'}
         parts = ['Is:NS500414', 'RN:628', 'Fc:H7YVNBGXC', 'La:%d' % (1 + tid % 4), 'Ti:11101', 'CX:%d' % (1000 + tid % 30000),
                  'CY:%d' % (1000 + tid // 7), 'Fi:N', 'CN:0', 'aa:%s' % index, 'aA:%s' % index, 'aI:1', 'LY:OLDLIB']
+        if r.random() < 0.2:
+            fake = {k: '' for k in fake}               # stale but EMPTY values
         parts += ['%s:%s' % (t, fake[t]) for t in sorted(sc.get('settags', [])) if t in fake]
         parts += ['bi:9999', 'BC:NNNNNNNN', 'MX:OLDMX']
         r.shuffle(parts)
@@ -213,21 +221,12 @@ class Gen:
         return '@' + ';'.join(['Is:NS500414'] + parts)
 
 
-def observe(strategy, recs, FastqRecord, NonMultiplexable):
-    records = tuple(FastqRecord(*x) for x in recs)
-    obs = {'acc': False, 'raised': '', 'out': [], 'shape': ''}
-    try:
-        res = strategy.demultiplex(records, library='LIB', probe=None)
-    except NonMultiplexable:
-        obs['raised'] = 'NonMultiplexable'
-        return obs
-    except Exception as ex:            # a crash of the code under test is an observation
-        obs['raised'] = type(ex).__name__
-        return obs
-    obs['acc'] = True
+def project(res, obs):
+    """copy what the code returned into the event: records as character codes (+ what asFastq() would write for them)"""
     if not isinstance(res, (list, tuple)):
         obs['shape'] = type(res).__name__
         res = [res]
+    fq = []
     for o in res:
         if isinstance(o, str):         # IlluminaBaseDemultiplexer returns fastq text
             parts = o.split('\n')
@@ -236,7 +235,51 @@ def observe(strategy, recs, FastqRecord, NonMultiplexable):
             tags = {t: codes(o.tags[t]) for t in BASE_TAGS if t in o.tags}
             meta = {t: str(o.tags[t]) for t in META_TAGS if t in o.tags}
             obs['out'].append({'seq': codes(o.sequence), 'qual': codes(o.qualities), 'tags': tags, 'meta': meta})
+            if fq is not None:
+                try:                   # the other end: the text FastqHandle would write for this record, parsed back
+                    parts = o.asFastq().split('\n')
+                    kv = dict(x.split(':', 1) for x in parts[0][1:].split(';') if ':' in x)
+                    fq.append({'seq': codes(parts[1]), 'qual': codes(parts[3]), 'tags': {t: codes(kv[t]) for t in BASE_TAGS if t in kv}})
+                except Exception as ex:
+                    obs['fq_raised'] = type(ex).__name__
+                    fq = None
+    if fq and len(fq) == len(obs['out']):
+        obs['fq'] = fq
     return obs
+
+
+def observe(strategy, recs, FastqRecord, NonMultiplexable, call=None):
+    """call: {'library': str, 'probe': None|False|True|'omit'} - the keyword arguments of this call"""
+    records = tuple(FastqRecord(*x) for x in recs)
+    obs = {'acc': False, 'raised': '', 'out': [], 'shape': ''}
+    call = call or {'library': 'LIB', 'probe': None}
+    kw = {'library': call['library']}
+    if call['probe'] != 'omit':
+        kw['probe'] = call['probe']
+    try:
+        res = strategy.demultiplex(records, **kw)
+    except NonMultiplexable:
+        obs['raised'] = 'NonMultiplexable'
+        return obs
+    except Exception as ex:            # a crash of the code under test is an observation
+        obs['raised'] = type(ex).__name__
+        return obs
+    obs['acc'] = True
+    return project(res, obs)
+
+
+def event(tid, st, branch, inj, recs, nm, desc, call, via):
+    return {'ev': 'demux', 'tid': tid, 's': st, 'branch': branch, 'inj': inj, 'nm': nm, 'via': via,
+            'r1': codes(recs[0][1]), 'q1': codes(recs[0][3]),
+            'r2': codes(recs[1][1]) if nm > 1 else [], 'q2': codes(recs[1][3]) if nm > 1 else [],
+            'gen': desc, 'hdrs': [x[0] for x in recs], 'call': {'library': call['library'], 'probe': str(call['probe'])}}
+
+
+def pick_call(rng):
+    """keyword arguments of a call: mostly the loader's own shape; also probe omitted / False / True (auto-detection) and an empty library name"""
+    k = rng.randrange(20)
+    probe = None if k < 12 else ('omit' if k < 14 else (False if k < 16 else True))
+    return {'library': '' if rng.random() < 0.05 else 'LIB', 'probe': probe}
 
 
 def replay(out, path):
@@ -249,15 +292,62 @@ def replay(out, path):
     index = sorted(ip.barcodes[INDEX_ALIAS].keys())[0]
     recs = []
     for m in (1, 2)[:ev['nm']]:
-        hdr = ev.get('hdr') or '@NS500414:628:H7YVNBGXC:1:11101:%d:1000 %d:N:0:%s' % (1000 + ev['tid'] % 30000, m, index)
+        hdr = '@NS500414:628:H7YVNBGXC:1:11101:%d:1000 %d:N:0:%s' % (1000 + ev['tid'] % 30000, m, index)
+        if ev.get('hdrs'):
+            hdr = ev['hdrs'][m - 1]
         recs.append((hdr, ''.join(map(chr, ev['r%d' % m])), '+', ''.join(map(chr, ev['q%d' % m]))))
-    e = {k: ev[k] for k in ('ev', 'tid', 's', 'branch', 'inj', 'nm', 'r1', 'q1', 'r2', 'q2', 'gen', 'hdr') if k in ev}
-    if ev['s'] in strategies:
-        e.update(observe(strategies[ev['s']], recs, FastqRecord, NonMultiplexable))
+    call = {'library': 'LIB', 'probe': None}
+    if ev.get('call'):
+        call = {'library': ev['call']['library'], 'probe': {'None': None, 'False': False, 'True': True, 'omit': 'omit'}[ev['call']['probe']]}
+    e = {k: ev[k] for k in ('ev', 'tid', 's', 'branch', 'inj', 'nm', 'via', 'r1', 'q1', 'r2', 'q2', 'gen', 'hdrs', 'call') if k in ev}
+    if ev['s'] in strategies:      # (cases recorded through the FASTQ files + loader path are replayed through the direct call)
+        e.update(observe(strategies[ev['s']], recs, FastqRecord, NonMultiplexable, call))
     else:
         e.update({'acc': False, 'raised': 'NotRegistered', 'out': [], 'shape': ''})
     with open(out, 'w') as f:
         f.write(json.dumps(e, separators=(',', ':')) + '\n')
+
+
+class Sink:
+    """stands in for the FastqHandle of the loader: keeps what the loader hands over for writing"""
+    def __init__(self):
+        self.got = []
+
+    def write(self, records):
+        self.got.append(records)
+
+
+def cluster_key(o):
+    if isinstance(o, str):
+        kv = dict(x.split(':', 1) for x in o.split('\n')[0][1:].split(';') if ':' in x)
+        return kv.get('CX'), kv.get('CY')
+    return str(o.tags.get('CX')), str(o.tags.get('CY'))
+
+
+def via_files(dmx, strategy, pairs, nm, variant, workdir):
+    """write the pairs as FASTQ files (plain / gz / CRLF / no final newline), run the real loader loop
+    (FastqIterator + DemultiplexingStrategyLoader.demultiplex) with a collecting sink -> {(CX,CY): returned records}"""
+    import gzip
+    paths = []
+    for m in range(nm):
+        text = ''.join('\n'.join(p[m]) + '\n' for p in pairs)
+        if variant == 'crlf':
+            text = text.replace('\n', '\r\n')
+        if variant == 'nofinalnewline':
+            text = text.rstrip('\r\n')
+        path = os.path.join(workdir, 'in_R%d.fastq%s' % (m + 1, '.gz' if variant == 'gz' else ''))
+        with (gzip.open(path, 'wt', newline='') if variant == 'gz' else open(path, 'w', newline='')) as f:
+            f.write(text)
+        paths.append(path)
+    sink = Sink()
+    with contextlib.redirect_stdout(io.StringIO()):
+        dmx.demultiplex(paths, strategies=[strategy], targetFile=sink, library='LIB')
+    res = {}
+    for recs in sink.got:
+        seq = recs if isinstance(recs, (list, tuple)) else [recs]
+        if seq:
+            res[cluster_key(seq[0])] = recs
+    return res
 
 
 def main():
@@ -276,14 +366,19 @@ def main():
     from singlecellmultiomics.fastqProcessing.fastqIterator import FastqRecord
     from singlecellmultiomics.modularDemultiplexer.baseDemultiplexMethods import NonMultiplexable
     n_per = per if per is not None else (30 if tier == 'quick' else 1000)
+    n_cross = (n_per * 2) if tier == 'quick' else n_per // 2
+    n_file = 6 if tier == 'quick' else 40
     tid = 0
     stats = {}
+    loaders = {}
     with open(out, 'w') as f:
         def emit(e):
             f.write(json.dumps(e, separators=(',', ':')) + '\n')
 
+        # 1. every strategy branch on its own inputs (direct calls, keyword-argument variants)
         for inj in (0, 1):
             bp, ip, dmx = build(1, inject=bool(inj))
+            loaders[inj] = (bp, ip, dmx)
             rng = random.Random(seed * 2 + inj)
             gen = Gen(rng, bp, ip)
             strategies = {s.shortName: s for s in dmx.demultiplexingStrategies}
@@ -304,13 +399,64 @@ def main():
                 for i in range(n):
                     tid += 1
                     recs, nm, desc = gen.pair(sc, tid, i)
-                    obs = observe(strategies[st], recs, FastqRecord, NonMultiplexable)
+                    blen = len(gen.boundary_lengths(sc, 1)) + len(gen.boundary_lengths(sc, 2))
+                    call = pick_call(rng) if i >= blen else {'library': 'LIB', 'probe': None}
+                    obs = observe(strategies[st], recs, FastqRecord, NonMultiplexable, call)
                     stats[key]['attempts'] += 1
                     stats[key]['accepted'] += 1 if obs['acc'] else 0
-                    e = {'ev': 'demux', 'tid': tid, 's': st, 'branch': sc['branch'], 'inj': inj, 'nm': nm,
-                         'r1': codes(recs[0][1]), 'q1': codes(recs[0][3]),
-                         'r2': codes(recs[1][1]) if nm > 1 else [], 'q2': codes(recs[1][3]) if nm > 1 else [],
-                         'gen': desc, 'hdr': recs[0][0] if desc.get('stale_header') else ''}
+                    e = event(tid, st, sc['branch'], inj, recs, nm, desc, call, 'direct')
+                    e.update(obs)
+                    emit(e)
+
+        # 2. the loader's shape: the SAME records go through every registered strategy in turn (strategies interleaved,
+        #    instances of the first loader re-used after a second loader was built); whoever accepts is judged by its own layout
+        bp, ip, dmx = loaders[0]
+        rng = random.Random(seed * 2 + 11)
+        gen = Gen(rng, bp, ip)
+        usable = [sc for sc in scenarios if sc['strategy'] in {s.shortName for s in dmx.demultiplexingStrategies}
+                  and (not only or sc['strategy'] in only) and (not sc['wl'] or bp.barcodes.get(sc['wl']))]
+        call = {'library': 'LIB', 'probe': None}
+        for _ in range(n_cross if usable else 0):
+            sc = rng.choice(usable)
+            tid += 1
+            recs, nm, desc = gen.pair(sc, tid)
+            for strategy in dmx.demultiplexingStrategies:
+                obs = observe(strategy, recs, FastqRecord, NonMultiplexable, call)
+                if obs['acc'] or strategy.shortName == sc['strategy']:
+                    tid += 1
+                    e = event(tid, strategy.shortName, sc['branch'] if strategy.shortName == sc['strategy'] else 0, 0, recs, nm, desc,
+                              call, 'cross:' + sc['strategy'])
+                    e.update(obs)
+                    emit(e)
+
+        # 3. the file path: FASTQ files (plain, gz, CRLF, no final newline) -> FastqIterator -> loader loop -> sink
+        variants = ['plain', 'gz', 'crlf', 'nofinalnewline']
+        workdir = os.path.join(os.getcwd(), 'layout_files')
+        os.makedirs(workdir, exist_ok=True)
+        strategies = {s.shortName: s for s in dmx.demultiplexingStrategies}
+        for k, sc in enumerate(usable):
+            variant = variants[(k + seed) % len(variants)]
+            for nm_want in sorted(sc['mates']):
+                pairs, meta = [], []
+                guard = 0
+                while len(pairs) < n_file and guard < n_file * 20:
+                    guard += 1
+                    tid += 1
+                    recs, nm, desc = gen.pair(sc, tid)
+                    if nm != nm_want or desc.get('stale_header') or any(len(x[1]) == 0 for x in recs):
+                        continue       # one file set = one record count; headers must carry the cluster key; an empty read is
+                    pairs.append(recs)     # indistinguishable from EOF for FastqIterator only if the header were empty - keep it simple
+                    meta.append((tid, desc))
+                if not pairs:
+                    continue
+                got = via_files(dmx, strategies[sc['strategy']], pairs, nm_want, variant, workdir)
+                for recs, (ptid, desc) in zip(pairs, meta):
+                    hdr = recs[0][0][1:].split(' ')[0].split(':')
+                    res = got.get((hdr[5], hdr[6]))
+                    e = event(ptid, sc['strategy'], sc['branch'], 0, recs, nm_want, desc, call, 'files:' + variant)
+                    obs = {'acc': res is not None, 'raised': '', 'out': [], 'shape': ''}
+                    if res is not None:
+                        project(res, obs)
                     e.update(obs)
                     emit(e)
         tid += 1
